@@ -1,5 +1,10 @@
 package rules
 
+import (
+	"encoding/json"
+	"fmt"
+)
+
 // Run dispatches the rule set of one property. It returns false for an
 // unknown / unclaimed property id.
 func Run(c *Ctx, prop string) bool {
@@ -16,6 +21,30 @@ var Properties = map[string]func(*Ctx){
 	"C09": C09,
 	"C07": C07,
 	"C06": C06,
+	"C05": C05,
+}
+
+func C05(c *Ctx) {
+	R6GateDominance(c)
+	R6AcceptList(c)
+	R6Issue(c)
+	R6Completion(c)
+}
+
+// Gen prints a derived table for review.
+func Gen(c *Ctx, what string) int {
+	switch what {
+	case "completion":
+		arms, missing := c.ClassifyCompletion()
+		if missing != "" {
+			fmt.Println("missing anchor:", missing)
+			return 2
+		}
+		b, _ := json.MarshalIndent(arms, "", " ")
+		fmt.Println(string(b))
+		return 0
+	}
+	return 2
 }
 
 func C06(c *Ctx) {
